@@ -1673,8 +1673,9 @@ fn process_stream_search_params<T: Read + Write>(
         }
         i += 1;
     }
+    // i is the first index not searched yet (it's incremented as well if max_results was reached)
     let next_search_idx = if i < stream_msgs_len {
-        Some(i + 1)
+        Some(i)
     } else {
         None
     };
